@@ -12,16 +12,18 @@
      [split sep s] is the plain split of a byte string (C10/ConfigSpec.v).
    * The global store is an ordered forest of named nodes; [cstep] runs one
      interface call (configAssign / configRemove / configQuery of config_global.c)
-     on it, [crun] a history.  [op_ok] says the operation goes through the global
-     handle with a well-formed path whose element names fit an identifier
-     (<= 65534 bytes; the code refuses longer names).
+     on it, [crun] a history; each operation names its handle by the base path
+     (length 0: the global configuration, otherwise a sub-tree view).  [vop_ok] says
+     base and path are well formed and element names fit an identifier (<= 65534
+     bytes; the code refuses longer names).  [tlook g k] reads key k in forest g by
+     first-match descent; [wff] = sibling names are unique.
    * The specification state is the list of accepted operations; [slook h k] reads
      key [k]: the value most recently assigned to exactly [k], present-without-
      value if [k] was only created as a prefix, absent if never assigned or
      removed since (C10/ConfigSpec.v, 40 lines).  [obs] merges the three
      "nothing removed" result classes. *)
 From MptV Require Import Base.Mem C10.ConfigModel C10.ConfigSpec C10.PathProofs C10.PathAdd C10.TreeQuery
-  C10.TreeOps C10.TreeAssign C10.StoreRefine C10.ItemProofs C10.RootRefine.
+  C10.TreeOps C10.TreeAssign C10.StoreRefine C10.ItemProofs C10.RootRefine C10.TreeView C10.ViewRefine.
 
 (* ---- paths ---- *)
 
@@ -72,14 +74,16 @@ Proof. exact path_next_spec. Qed.
 
 (* ---- the store ---- *)
 
-(* After ANY history of assign / remove / query through the global handle, every
-   output (result class, queried entry) is what the history specification gives:
-   a query returns the value most recently assigned to exactly that path, reports
-   presence without value for a mere prefix, absence otherwise. *)
+(* After ANY history of assign / remove / query through the global handle AND through
+   sub-tree views on arbitrary base paths (configRoot.base), every output (result
+   class, queried entry) is what the history specification gives: a query returns
+   the value most recently assigned to exactly that path, reports presence without
+   value for a mere prefix, absence otherwise.  A view with base b acts on key
+   b ++ k; its empty path is the base node itself. *)
 Theorem C10_config_refines_map :
-  forall ops, Forall op_ok ops ->
+  forall ops, Forall vop_ok ops ->
     map obs (fst (crun [] ops)) = map obs (fst (srun [] (map hop_of ops) (fst (crun [] ops)))).
-Proof. exact (fun ops H => crun_refines ops [] [] R_init H). Qed.
+Proof. exact (fun ops H => vrun_refines ops [] [] R_init H). Qed.
 
 (* The private C++ configuration (config::root over config_item slot arrays with
    unused-slot reuse, eager removal [RRemove] and lazy removal [RDrop]) refines the
@@ -92,31 +96,39 @@ Proof. exact (fun ops H => rrun_refines ops [] [] RI_init H). Qed.
 (* The same per operation, from any reachable state: the refinement relation
    (sibling names unique, reading of every key equal) is kept. *)
 Theorem C10_step_refines :
-  forall g h o, R g h -> op_ok o ->
+  forall g h o, R g h -> vop_ok o ->
     let '(g', out) := cstep g o in
     let '(h', sout) := sstep h (hop_of o) (accepted out) in
     obs out = obs sout /\ R g' h'.
-Proof. exact cstep_refines. Qed.
+Proof. exact vstep_refines. Qed.
 
-(* An accepted assignment to key q changes the reading of q only, except that it
-   makes the proper prefixes of q present (their value is kept). *)
+(* An accepted assignment to key q = base ++ path changes the reading of q only,
+   except that it makes the proper prefixes of q present (their value is kept). *)
 Theorem C10_assign_frame :
-  forall g b p v, gpath b -> wff g -> pwf p -> Forall name_ok (elems p) -> elems p <> [] ->
+  forall g b p v, hpath b -> wff g -> pwf p -> Forall name_ok (elems p) -> elems b ++ elems p <> [] ->
   exists g', cfg_assign g b p v = Done (g', RcOk) /\ wff g' /\
     forall k, k <> [] ->
-      tlook g' k = if key_eqb k (elems p) then Exists (Some v)
-                   else if key_proper_prefix k (elems p) then touch (tlook g k)
+      tlook g' k = if key_eqb k (elems b ++ elems p) then Exists (Some v)
+                   else if key_proper_prefix k (elems b ++ elems p) then touch (tlook g k)
                    else tlook g k.
-Proof. exact assign_frame. Qed.
+Proof. exact assign_frame_all. Qed.
 
-(* Removing key q hides exactly q and everything beneath it, nothing else; when q
-   is absent nothing changes. *)
+(* Removing key q = base ++ path hides exactly q and everything beneath it, nothing
+   else; when q is absent nothing changes. *)
 Theorem C10_remove_subtree_only :
-  forall g b p, gpath b -> wff g -> pwf p -> elems p <> [] ->
+  forall g b p, hpath b -> wff g -> pwf p -> elems p <> [] ->
   exists g' r, cfg_remove g b p = Done (g', r) /\ wff g' /\
-    (is_removed r = true <-> tlook g (elems p) <> Absent) /\
-    forall k, tlook g' k = if is_removed r && key_prefix (elems p) k then Absent else tlook g k.
-Proof. exact remove_subtree_only. Qed.
+    (is_removed r = true <-> tlook g (elems b ++ elems p) <> Absent) /\
+    forall k, tlook g' k = if is_removed r && key_prefix (elems b ++ elems p) k then Absent else tlook g k.
+Proof. exact remove_subtree_only_all. Qed.
+
+(* Removal with the empty path through a view hides exactly what is strictly
+   beneath the base node (the base keeps its own value). *)
+Theorem C10_clear_beneath_only :
+  forall g b p, vpath b -> wff g -> pwf p -> elems p = [] ->
+  exists g' r, cfg_remove g b p = Done (g', r) /\ wff g' /\
+    forall k, tlook g' k = if key_proper_prefix (elems b) k then Absent else tlook g k.
+Proof. exact clear_beneath_only. Qed.
 
 (* ---- non-vacuity ---- *)
 Definition bs (l : list nat) : list byte := map N.of_nat l.
@@ -136,8 +148,24 @@ Example C10_history_example :
      OutRc RcRemoved; OutEntry Absent; OutEntry Absent].
 Proof. vm_compute. reflexivity. Qed.
 
+Example C10_view_history_example :
+  fst (crun [] [CAssign (mk [97;46;98]) (mk [99]) (bs [1]); CQuery gl (mk [97;46;98;46;99]);
+                CAssign (mk [97;46;98]) gl (bs [2]); CQuery gl (mk [97;46;98]); CQuery (mk [97]) (mk [98;46;99]);
+                CRemove (mk [97;46;98]) gl; CQuery gl (mk [97;46;98;46;99]); CQuery gl (mk [97;46;98])])
+  = [OutRc RcOk; OutEntry (Exists (Some (bs [1]))); OutRc RcOk; OutEntry (Exists (Some (bs [2])));
+     OutEntry (Exists (Some (bs [1]))); OutRc RcCleared; OutEntry Absent; OutEntry (Exists (Some (bs [2])))].
+Proof. vm_compute. reflexivity. Qed.
+
 Example C10_long_element_walk :
   pwalk (mk (repeat 120 257 ++ [46] ++ repeat 121 256)) = Done [bs (repeat 120 257); bs (repeat 121 256)].
+Proof. vm_compute. reflexivity. Qed.
+
+(* why [name_ok] is in the hypotheses: a name of 65535 bytes cannot be stored in an
+   identifier; the assignment is refused AFTER the nodes in front of it were created,
+   so the prefix "a" is present afterwards although nothing was assigned. *)
+Example C10_name_limit_witness :
+  cstep [] (CAssign gl (mk ([97;46] ++ repeat 120 (S ident_max))) (bs [1]))
+  = ([Node (bs [97]) None []], OutRc RcRefused).
 Proof. vm_compute. reflexivity. Qed.
 
 Example C10_root_history_example :
@@ -164,3 +192,4 @@ Print Assumptions C10_config_refines_map.
 Print Assumptions C10_step_refines.
 Print Assumptions C10_assign_frame.
 Print Assumptions C10_remove_subtree_only.
+Print Assumptions C10_clear_beneath_only.
